@@ -237,11 +237,17 @@ IsBlankNode(n) ==
          /\ (n.else.has => IsBlankSeq(n.else.body))
     [] n.k = "for" -> IsBlankSeq(n.body) /\ (n.else.has => IsBlankSeq(n.else.body))
     [] n.k \in {"with", "liquid"} -> IsBlankSeq(n.body)
+    [] n.k \in {"include", "render", "call"} -> FALSE
     [] OTHER -> FALSE
 
 -----------------------------------------------------------------------------
 (* statements *)
 Fail(st, cls) == [st EXCEPT !.err = cls]
+
+\* RenderContext.extend: one more namespace on the scope chain, refused when the
+\* chain is already deeper than the limit (4 fixed maps + the template's own)
+ScopeSize(st) == 4 + Len(st.scopes)
+TooDeep(st) == ScopeSize(st) > st.cfg.depthlimit
 Write(st, s)  == [st EXCEPT !.out = @ \o s]
 
 \* text written for a value at an output site
@@ -250,7 +256,9 @@ OutText(v, st) == IF st.cfg.autoescape THEN OutStrEsc(v) ELSE OutStr(v)
 SeqGet(pairs, k, dflt) == IF HHas(pairs, k) THEN HGet(pairs, k) ELSE dflt
 
 \* the `name` of a forloop / the stopindex key: "<identifier>-<iterable text>"
-RECURSIVE Exec(_, _), ExecNode(_, _), ExecBlock(_, _), ExecFor(_, _, _, _, _), ExecWhens(_, _, _, _, _), ExecElifs(_, _, _)
+RECURSIVE Exec(_, _), ExecNode(_, _), ExecBlock(_, _), ExecFor(_, _, _, _, _), ExecWhens(_, _, _, _, _), ExecElifs(_, _, _),
+          ExecTemplate(_, _), IncludeIter(_, _, _, _, _, _), RenderIter(_, _, _, _, _, _, _),
+          ExecInclude(_, _), ExecRender(_, _), ExecCall(_, _)
 
 \* a block body: suppressed (executed, output discarded) when blank
 ExecBlock(body, st) ==
@@ -378,22 +386,138 @@ ExecNode(n, st) ==
             ELSE IF UndefErr(v, st, "output") THEN Fail(s1, "UndefinedError")
             ELSE Write(s1, OutText(v, st))
     [] n.k = "liquid" -> ExecBlock(n.body, st)
+    [] n.k = "include" -> ExecInclude(n, st)
+    [] n.k = "render" -> ExecRender(n, st)
+    [] n.k = "macro" -> [st EXCEPT !.macros = HPut(@, n.n, [params |-> n.params, body |-> n.body])]
+    [] n.k = "call" -> ExecCall(n, st)
     [] n.k = "with" ->
          LET vals == EvalSeq([i \in DOMAIN n.args |-> n.args[i].e], 1, st) IN
          IF IsErr(vals) THEN Fail(st, vals.cls)
+         ELSE IF TooDeep(st) THEN Fail(st, "ContextDepthError")
          ELSE LET sc == [i \in DOMAIN n.args |-> <<n.args[i].n, vals.v[i]>>]
                   s1 == ExecBlock(n.body, [st EXCEPT !.scopes = Append(@, sc)])
               IN [s1 EXCEPT !.scopes = st.scopes]
 
 -----------------------------------------------------------------------------
+(* partial templates: include (shared scope), render and macro/call (isolated) *)
+
+\* Template.render_with_context: the template's nodes in one more (empty) scope
+ExecTemplate(nodes, st) ==
+  IF TooDeep(st) THEN Fail(st, "ContextDepthError")
+  ELSE LET s1 == Exec(nodes, [st EXCEPT !.scopes = Append(@, <<>>)])
+       IN [s1 EXCEPT !.scopes = st.scopes]
+
+\* name under which `with`/`for` binds its value: the alias, else the template
+\* name up to the first "."
+RECURSIVE UpToDot(_)
+UpToDot(nm) == IF nm = "" \/ Ch(nm, 1) = "." THEN "" ELSE Ch(nm, 1) \o UpToDot(SubSeq(nm, 2, Len(nm)))
+BaseName(nm) == LET F[i \in 0..Len(nm)] == IF i = 0 THEN "" ELSE IF Ch(nm, i) = "/" THEN "" ELSE F[i - 1] \o Ch(nm, i)
+                IN F[Len(nm)]
+BindKey(n, tname) == IF n.alias # "" THEN n.alias ELSE UpToDot(BaseName(tname))
+
+EvalKwargs(kwargs, st) ==
+  LET vals == EvalSeq([i \in DOMAIN kwargs |-> kwargs[i].e], 1, st) IN
+  IF IsErr(vals) THEN vals
+  ELSE Hash([i \in DOMAIN kwargs |-> <<kwargs[i].n, vals.v[i]>>])
+
+\* include ... for/with an array: the partial once per item, sharing everything
+IncludeIter(nodes, key, items, i, nsIdx, st) ==
+  IF i > Len(items) \/ st.err # "" \/ st.intr # "" THEN st
+  ELSE LET s1 == [st EXCEPT !.scopes = [@ EXCEPT ![nsIdx] = HPut(@, key, items[i])]]
+       IN IncludeIter(nodes, key, items, i + 1, nsIdx, ExecTemplate(nodes, s1))
+
+\* a context that sees only `ns` and the global layers (RenderContext.copy)
+Isolated(st, ns, disabled) ==
+  [st EXCEPT !.out = "", !.locals = <<>>, !.scopes = <<>>, !.layers = <<ns>> \o st.layers,
+             !.counters = <<>>, !.cycles = <<>>, !.stop = <<>>, !.loops = <<>>, !.macros = <<>>,
+             !.disabled = disabled, !.cdepth = st.cdepth + 1, !.intr = ""]
+
+\* back in the caller: only the text written (and a failure) comes back
+Back(st, s2) ==
+  IF s2.err # "" THEN Fail(st, s2.err)
+  ELSE IF s2.intr # "" THEN Fail(st, "LiquidSyntaxError")       \* break/continue cannot leave a render
+  ELSE Write(st, s2.out)
+
+\* render ... for: every item renders the partial in a context of its own
+RenderIter(nodes, key, items, i, ns, disabled, st) ==
+  IF i > Len(items) \/ st.err # "" THEN st
+  ELSE LET fl == [t |-> "forloop", name |-> key, length |-> Len(items), index0 |-> i - 1, parent |-> Undef]
+           ns2 == HPut(HPut(ns, "forloop", fl), key, items[i])
+           s2 == ExecTemplate(nodes, Isolated(st, ns2, disabled))
+       IN RenderIter(nodes, key, items, i + 1, ns, disabled, Back(st, s2))
+
+ExecInclude(n, st) ==
+  IF "include" \in st.disabled THEN Fail(st, "DisabledTagError")
+  ELSE LET nm == Eval(n.name, st) IN
+  IF IsErr(nm) THEN Fail(st, nm.cls)
+  ELSE IF UndefErr(nm, st, "output") THEN Fail(st, "UndefinedError")
+  ELSE IF nm.t # "str" THEN Fail(st, "UNSPEC")
+  ELSE IF ~HHas(st.tpls, nm.v) THEN Fail(st, "TemplateNotFoundError")
+  ELSE LET nodes == HGet(st.tpls, nm.v)
+           ns == EvalKwargs(n.kwargs, st) IN
+  IF IsErr(ns) THEN Fail(st, ns.cls)
+  ELSE IF TooDeep(st) THEN Fail(st, "ContextDepthError")
+  ELSE LET s0 == [st EXCEPT !.scopes = Append(@, ns.v)]
+           idx == Len(s0.scopes)
+           done == IF n.mode = "none" THEN ExecTemplate(nodes, s0)
+                   ELSE LET val == Eval(n.var, s0) IN
+                        IF IsErr(val) THEN Fail(s0, val.cls)
+                        ELSE IF val.t \in {"arr", "range"}
+                        THEN IncludeIter(nodes, BindKey(n, nm.v), IF val.t = "arr" THEN val.v ELSE RangeSeq(val), 1, idx, s0)
+                        ELSE ExecTemplate(nodes, [s0 EXCEPT !.scopes = [@ EXCEPT ![idx] = HPut(@, BindKey(n, nm.v), val)]])
+       IN [done EXCEPT !.scopes = st.scopes]
+
+ExecRender(n, st) ==
+  IF "render" \in st.disabled THEN Fail(st, "DisabledTagError")
+  ELSE IF ~HHas(st.tpls, n.name.v) THEN Fail(st, "TemplateNotFoundError")
+  ELSE LET nodes == HGet(st.tpls, n.name.v)
+           ns == EvalKwargs(n.kwargs, st) IN
+  IF IsErr(ns) THEN Fail(st, ns.cls)
+  ELSE IF st.cdepth > st.cfg.depthlimit THEN Fail(st, "ContextDepthError")
+  ELSE IF n.mode = "none" THEN Back(st, ExecTemplate(nodes, Isolated(st, ns.v, {"include"})))
+  ELSE LET val == Eval(n.var, st) IN
+       IF IsErr(val) THEN Fail(st, val.cls)
+       ELSE IF n.mode = "for" /\ val.t \in {"arr", "range"}
+       THEN RenderIter(nodes, BindKey(n, n.name.v), IF val.t = "arr" THEN val.v ELSE RangeSeq(val), 1, ns.v, {"include"}, st)
+       ELSE Back(st, ExecTemplate(nodes, Isolated(st, HPut(ns.v, BindKey(n, n.name.v), val), {"include"})))
+
+\* bind call arguments to macro parameters (CallNode.macro_args): positional
+\* first, keywords may override, the rest go to `args` / `kwargs`
+MacroParam(m, i, call, st) ==
+  LET pn == m.params[i].n
+      kw == SelectSeq(call.kwargs, LAMBDA a : a.n = pn) IN
+  IF kw # <<>> THEN Eval(kw[Len(kw)].e, st)
+  ELSE IF i <= Len(call.args) THEN Eval(call.args[i], st)
+  ELSE IF m.params[i].has THEN Eval(m.params[i].e, st)
+  ELSE Undef
+
+ExecCall(n, st) ==
+  IF ~HHas(st.macros, n.n)
+  THEN (IF st.cfg.undef \in {"strict", "falsy", "touch"} THEN Fail(st, "UndefinedError") ELSE st)
+  ELSE LET m == HGet(st.macros, n.n)
+           np == Len(m.params)
+           pvals == [i \in 1..np |-> MacroParam(m, i, n, st)]
+           extra == EvalSeq(SubSeq(n.args, np + 1, Len(n.args)), 1, st)
+           xkw == SelectSeq(n.kwargs, LAMBDA a : \A i \in 1..np : m.params[i].n # a.n)
+           xkwv == EvalKwargs(xkw, st) IN
+  IF \E i \in 1..np : IsErr(pvals[i]) THEN Fail(st, pvals[CHOOSE i \in 1..np : IsErr(pvals[i])].cls)
+  ELSE IF IsErr(extra) THEN Fail(st, extra.cls)
+  ELSE IF IsErr(xkwv) THEN Fail(st, xkwv.cls)
+  ELSE IF st.cdepth > st.cfg.depthlimit THEN Fail(st, "ContextDepthError")
+  ELSE LET ns == <<<<"args", extra>>, <<"kwargs", xkwv>>>> \o [i \in 1..np |-> <<m.params[i].n, pvals[i]>>]
+           s2 == ExecBlock(m.body, Isolated(st, ns, {"include", "block"}))
+       IN IF s2.err # "" THEN Fail(st, s2.err)
+          ELSE [Write(st, s2.out) EXCEPT !.intr = s2.intr]
+
+-----------------------------------------------------------------------------
 InitState(tpls, data, cfg) ==
   [out |-> "", locals |-> <<>>, scopes |-> <<>>, layers |-> data, counters |-> <<>>,
    cycles |-> <<>>, stop |-> <<>>, loops |-> <<>>, err |-> "", intr |-> "",
-   cfg |-> cfg, tpls |-> tpls]
+   cfg |-> cfg, tpls |-> tpls, macros |-> <<>>, disabled |-> {}, cdepth |-> 0]
 
 \* data: sequence of global layers in priority order, each an ordered hash
 Render(tpls, main, data, cfg) ==
-  LET s == Exec(HGet(tpls, main), InitState(tpls, data, cfg)) IN
+  LET s == ExecTemplate(HGet(tpls, main), [InitState(tpls, data, cfg) EXCEPT !.scopes = <<>>]) IN
   IF s.err # "" THEN [ok |-> FALSE, err |-> s.err, out |-> ""]
   ELSE IF s.intr # "" THEN [ok |-> FALSE, err |-> "LiquidSyntaxError", out |-> ""]
   ELSE [ok |-> TRUE, err |-> "", out |-> s.out]
